@@ -119,8 +119,9 @@ class Borda(Suite):
 
 if __name__ == "__main__":
     main("C12", [Borda()],
-         level_note="means are compared exactly in the model (cross-multiplication); the library compares float quotients, which decide "
-                    "the same order for numerators <= n*m and denominators <= m (here < 2^26)",
+         level_note="means are compared exactly in the model (cross-multiplication); the library compares binary64 quotients, which compare "
+                    "exactly like the rationals for totals <= 2^20 and counts <= 2^10 (theorem C12_float_means_compare_exactly, "
+                    "coq/theories/FloatMeans.v, on Flocq's rounding; it uses the real-number axioms of the standard library)",
          rule="pairs of partial rankings over {0,1,2} under the unifying and induced schemes, both variants; random datasets <= 8 x 6 with "
               "schemes drawn from the four accepted families and their multiples (50%), one-entry near-misses (20%), other valid schemes. "
               "non-trivial = accepted and >= 3 elements")
